@@ -111,6 +111,34 @@ def run(ctx: Ctx) -> None:
                     why = "the message is not `<file of tok.location>:<line of tok.location>:`"
         ctx.ob("R6.1m", f"parser:CxxParser.parse|message `{short(st, 60)}`", ok, msg=why, node=st, mod=mod)
 
+    # "once any token has been read, a line number": the handler takes the line from the exception's token or, failing that,
+    # from the loop's current token.  An error raised by parse() itself inside the try must therefore carry a token that is
+    # known to exist where it is raised - at the end of input the loop's token variable is None again
+    from .c04 import _known_not_none
+    pfn = pm.fn("parse")
+    pcfg = pm.cfg("parse")
+    prd = reaching_defs(pcfg, skip_exc=False)
+    handlers_ = [h for t_ in walk_local(pfn) if isinstance(t_, ast.Try) for h in t_.handlers]
+    in_handler = {id(x) for h in handlers_ for x in ast.walk(h)}
+    n_raise = 0
+    for n in pcfg.nodes:
+        if n.kind != "stmt" or not isinstance(n.stmt, ast.Raise) or id(n.stmt) in in_handler or n.stmt.exc is None:
+            continue
+        n_raise += 1
+        exc = n.stmt.exc
+        tokarg = None
+        if isinstance(exc, ast.Call):
+            fch = attr_chain(exc.func) or ("",)
+            if fch[-1] in ("CxxParseError", "LexError") and len(exc.args) >= 2:
+                tokarg = exc.args[1]
+            elif fch[-1] == "_parse_error" and exc.args:
+                tokarg = exc.args[0]
+        okr = isinstance(tokarg, ast.Name) and _known_not_none(pcfg, prd, n, tokarg.id)
+        ctx.ob("R6.1m", f"parser:CxxParser.parse|`{short(n.stmt, 50)}` carries a token", okr,
+               msg=f"`{short(n.stmt, 70)}` is raised inside parse()'s own loop without a token that is known to exist there: the handler has no line to report although tokens have been read (e.g. at the end of input, where the loop's token is None)",
+               node=n.stmt, mod=mod)
+    ctx.ob("R6.1m", "parser:CxxParser.parse|errors raised by the loop itself", True, node=pfn, mod=mod, nontrivial=False, detail={"raise statements in the try body": n_raise})
+
     # ---------------------------------------------------------------- R6.2
     ctx.rule("R6.2", "every token that can reach the error handler carries a location", minimum=3)
     stamp = [f for f in fm.linear() if f[0] == "stamp"]
